@@ -1,5 +1,6 @@
 pub use super::types::{ByteCode, CelStackValue, JmpWhen, RsCallable};
 use crate::{types::CelByteCode, CelValueDyn};
+use std::cell::RefCell;
 use std::fmt;
 
 use crate::{
@@ -45,6 +46,7 @@ impl<'a, 'b> InterpStack<'a, 'b> {
                         if let Some(ctx) = self.ctx.cel {
                             // Allow for loaded programs to run as values
                             if let Some(prog) = ctx.get_program(&name) {
+                                let _active = self.ctx.enter_program(&name)?;
                                 return self.ctx.run_raw(prog.bytecode(), true).map(|x| x.into());
                             }
                         }
@@ -99,6 +101,19 @@ pub struct Interpreter<'a> {
     cel: Option<&'a CelContext>,
     bindings: Option<&'a BindContext<'a>>,
     depth: ScopedCounter,
+    /// Names of the stored programs that are being evaluated right now, outermost first
+    active: RefCell<Vec<String>>,
+}
+
+/// Marks a stored program as being evaluated until dropped
+struct ActiveProgram<'i> {
+    active: &'i RefCell<Vec<String>>,
+}
+
+impl<'i> Drop for ActiveProgram<'i> {
+    fn drop(&mut self) {
+        self.active.borrow_mut().pop();
+    }
 }
 
 impl<'a> Interpreter<'a> {
@@ -107,6 +122,7 @@ impl<'a> Interpreter<'a> {
             cel: Some(cel),
             bindings: Some(bindings),
             depth: ScopedCounter::new(),
+            active: RefCell::new(Vec::new()),
         }
     }
 
@@ -122,6 +138,7 @@ impl<'a> Interpreter<'a> {
             cel: Some(cel),
             bindings: Some(bindings),
             depth: ScopedCounter::starting_at(parent.depth.count()),
+            active: RefCell::new(parent.active.borrow().clone()),
         }
     }
 
@@ -130,6 +147,7 @@ impl<'a> Interpreter<'a> {
             cel: None,
             bindings: None,
             depth: ScopedCounter::new(),
+            active: RefCell::new(Vec::new()),
         }
     }
 
@@ -145,10 +163,31 @@ impl<'a> Interpreter<'a> {
         self.bindings.cloned()
     }
 
+    /// Registers the stored program `name` as being evaluated. A program that is already
+    /// being evaluated refers to itself, directly or through others: that is an error at
+    /// once (waiting for the depth limit takes time exponential in the number of
+    /// references per program).
+    fn enter_program(&self, name: &str) -> CelResult<ActiveProgram<'_>> {
+        let mut active = self.active.borrow_mut();
+        if active.iter().any(|n| n == name) {
+            return Err(CelError::runtime(&format!(
+                "Cyclic reference to program {}",
+                name
+            )));
+        }
+        active.push(name.to_owned());
+        Ok(ActiveProgram {
+            active: &self.active,
+        })
+    }
+
     pub fn run_program(&self, name: &str) -> CelResult<CelValue> {
         match self.cel {
             Some(cel) => match cel.get_program(name) {
-                Some(prog) => self.run_raw(prog.bytecode(), true),
+                Some(prog) => {
+                    let _active = self.enter_program(name)?;
+                    self.run_raw(prog.bytecode(), true)
+                }
                 None => Err(CelError::binding(&name)),
             },
             None => Err(CelError::internal("No CEL context bound to interpreter")),
